@@ -655,6 +655,26 @@ pub fn invalid_atoms(schema: &Value, value: &Value, defs: &Defs, depth: u32, out
                 if shaped.len() == 1 {
                     invalid_atoms(shaped[0], value, defs, depth + 1, out);
                 }
+            } else if !nullable_wrapper && !value.is_null() {
+                // an untagged alternative told apart by its JSON type (the one array
+                // alternative for an array value, ...): the invalid part lies inside it
+                let kind = value_kind(value);
+                let typed: Vec<&Value> = subs
+                    .iter()
+                    .filter(|sub| {
+                        let d = deref(sub, defs, 0);
+                        match d.get("type").and_then(|t| t.as_str()) {
+                            Some("array") => kind == "array",
+                            Some("string") => kind == "string",
+                            Some("boolean") => kind == "bool",
+                            Some("integer") | Some("number") => kind == "number",
+                            _ => false,
+                        }
+                    })
+                    .collect();
+                if typed.len() == 1 {
+                    invalid_atoms(typed[0], value, defs, depth + 1, out);
+                }
             }
         }
     }
